@@ -112,7 +112,7 @@ def plan(tier, seed):
         if kn == "TBP":
             pre.append("pl % 10 == 0" if tier == "quick" else "True")
         if kn == "Oct":
-            pre.append("pl % 60 == 0" if tier == "quick" else "pl % 4 == 0")
+            pre.append("pl % 180 == 7" if tier == "quick" else "pl % 4 == 0")
         if tier == "quick":
             pre.append("noise == 0 or (rot == 0 and not mirror)")
         else:
